@@ -143,7 +143,9 @@ def check_C03(tier):
         "arguments/indices/slices as listed in spec/MC_PyOps.tla",
         "PyOps.tla is cross-validated against CPython dict/list on every exported edge before it is used as oracle",
         "Redis/MongoDB/Zarr classes run on in-memory fakes of the client calls the backends make",
-        "dict key order is not modelled (popitem may return any item; iteration compared as sets)"]
+        "PyOps models a dict as a function (popitem may return any item there; iteration compared as sets); key ORDER is "
+        "decided by spec/DictOrder.tla: every edge of its state graph (3 keys, 4 operations, outside writers, reset) is "
+        "replayed with the order of iteration, popitem's choice and the key order in the resource compared after every step"]
     run.cov["rule"] = ("edges = (container state, operation, arguments) of MC_PyOps enumerated by TLC; an edge is "
                        "non-trivial if it changes the content, raises, or returns something other than None; "
                        "each edge is executed on every class x position (root / nested depth 2 and 3) and the "
@@ -151,10 +153,91 @@ def check_C03(tier):
     sample = None if tier == "thorough" else 2500
     replay(run, "C03", tier, want=("ret", "content"), sample=sample)
     run.cov["exhaustive"] = tier == "thorough"
+    key_order(run, tier)
     for e in run.cov.get("tlc_runs", []):
         run.sample(e)
     run.sample({"pre": {"a": 1}, "op": "pop", "k": "b", "expected": "returns default None, content unchanged"})
     return run.finish()
+
+
+# ------------------------------------------------------------------ DictOrder.tla: key order
+def _order_job(args):
+    from . import orderrun
+    spec_name, items = args
+    env.install()
+    spec = env.spec_by_name(spec_name)
+    out = []
+    for (position, h, variant) in items:
+        try:
+            pr = orderrun.replay(spec, position, h, variant)
+        except Exception:  # noqa: BLE001
+            import traceback
+            pr = [{"aspect": "harness", "detail": traceback.format_exc(limit=5)}]
+        for p in pr[:1]:
+            out.append({"cls": spec_name, "position": position, "op": "order:" + "/".join(s_["op"] for s_ in h[1:]),
+                        "aspect": p["aspect"], "detail": p["detail"], "order_history": h, "variant": variant,
+                        "replay_fn": ["chk_pyops", "replay_order"]})
+    return out
+
+
+def replay_order(prop, case):
+    from . import orderrun
+    env.install()
+    pr = orderrun.replay(env.spec_by_name(case["cls"]), case["position"], case["order_history"], case.get("variant", 0))
+    if pr:
+        print(f"VIOLATION property={prop} replay={__import__('os').environ.get('VERIF_REPLAY_PATH', '-')} {pr[0]}")
+        return 1
+    print("not reproduced on this tree")
+    return 0
+
+
+def key_order(run, tier):
+    """DictOrder.tla: TLC explores the order state machine and exports (sampled) edges with shortest paths; the model is
+    first compared with the built-in dict, then every behaviour is replayed on the dict classes at every position."""
+    from . import orderrun
+    import json as _json
+    quick = tier == "quick"
+    cfg = tlc.cfg_text(init="MCInit", next_="MCNext", view="View",
+                       constants={"Keys": '{"a", "b", "c"}', "MaxOps": "4", "SampleK": "3" if quick else "1"},
+                       invariants=["NoDuplicates", "SameKeys"], properties=["C03_FileOrderIsMemoryOrder"],
+                       action_constraints=["ExportPath"])
+    res = tlc.run("MC_DictOrder", cfg, name="dictorder", seed=common.seed(), timeout=900)
+    if not res.ok:
+        run.machinery_error(f"TLC MC_DictOrder: {res.violated} {res.errors[:2]} {res.tail(8)}")
+        return
+    run.add_tlc(res, "DictOrder.tla key order, 3 keys, 4 operations")
+    hs = list(res.records("ORD"))
+    ops = set()
+    for h in hs:
+        bad = orderrun.builtin_check(h)
+        if bad:
+            run.machinery_error("DictOrder.tla disagrees with the built-in dict: " + bad)
+            return
+        ops |= {s_["op"] for s_ in h[1:]}
+        run._distinct.add(("order", _json.dumps([(s_["op"], s_["arg"]) for s_ in h], sort_keys=True)))
+    for need in ("popitem", "iter", "ext", "reset", "update", "setdefault", "pop"):
+        if need not in ops:
+            run.machinery_error(f"DictOrder.tla: no exported behaviour contains {need}")
+    jobs = []
+    n = 0
+    for position in seq.POSITIONS:
+        rk = seq.root_kind(position, "d")
+        for spec in env.specs(kind=rk):
+            items = [(position, h, (i + len(position)) % 3) for i, h in enumerate(hs)]
+            if quick:
+                items = items[(hash(spec.name) % 2)::2]
+            n += len(items)
+            for ch in common.chunks(items, 2):
+                jobs.append((spec.name, ch))
+    for out in common.pmap(_order_job, jobs):
+        for v in out:
+            if v["aspect"] == "harness":
+                run.machinery_error(v["detail"])
+            else:
+                run.violation(v)
+    run.cov["evaluations"] += n
+    run.cov["traces_validated_against_impl"] += n
+    run.cov["key_order_behaviours"] = {"exported": len(hs), "replays": n, "operations": sorted(ops)}
 
 
 def check_C01(tier):
